@@ -608,9 +608,15 @@ func (w *world) waitFor(cond func() bool) {
 			// The expected observation did not arrive. If every goroutine of the code under test and of the harness is
 			// parked, nothing more will happen by itself: the line is reported as observed (a verdict). If something is
 			// still running, the machine was too slow for the ceiling: that is a harness error, never a verdict.
+			// (A loop of the code under test that never parks is a finding of its own: quiesce() tells the two apart.)
 			if !quietNow() {
-				w.dead = fmt.Sprintf("ceiling of %v exceeded while goroutines were still running (machine too slow?)", d)
-				return
+				w.quiesce()
+				if w.dead != "" {
+					w.dead = fmt.Sprintf("ceiling of %v exceeded while goroutines were still running (machine too slow?): %s", d, w.dead)
+				}
+				if w.dead != "" || w.spin {
+					return
+				}
 			}
 			w.late++
 			lateTotal++
